@@ -137,6 +137,9 @@ def run(ck, replay=None):
     combos = [("full", "direct"), ("flux_reduced", "direct"), ("flux_reduced", "amg"), ("flux_reduced", "cg"),
               ("pressure", "direct"), ("pressure", "amg"), ("pressure", "cg")]
     sample = shapes if not quick else rng.sample(shapes, min(len(shapes), 10))
+    # the smallest grids of the range - a single cell, no interior face - in every formulation / back-end (the system is
+    # the pinned pressure and the multiplier only)
+    sample = [(1,), (1, 1), (1, 1, 1)] + list(sample)
     for s in sample:
         h = [rng.choice([1.0, 0.5, 0.1, 2.0]) for _ in s]
         grid = darsia.Grid(tuple(s), h)
